@@ -28,6 +28,10 @@ type deliverCase struct {
 	RestartDelayMs int     `json:"restart_delay_ms"`
 	HandlerMicros  int     `json:"handler_micros"`
 	PaceMicros     int     `json:"pace_micros"`
+	// stoprace: sender 0 stops (poisons, when Poison is set) the actor after its StopAt-th message and
+	// waits for the returned context, while the other senders go on
+	StopAt int  `json:"stop_at"`
+	Poison bool `json:"poison"`
 }
 
 type deliverObs struct {
@@ -172,6 +176,138 @@ func runChildrenRace(c deliverCase) (any, error) {
 	return obs, nil
 }
 
+// stopRaceActor: one value per incarnation (the Producer runs again after a crash).
+type stopRaceActor struct {
+	w       *stopRaceWorld
+	stopped int32 // Stopped deliveries to this incarnation
+}
+
+type stopRaceWorld struct {
+	c        deliverCase
+	mu       sync.Mutex
+	got      [][]int
+	inflight int32
+	overlap  bool
+	anomaly  int32
+	panicked map[[2]int]bool
+	// set when the Stopped handler of an incarnation has returned
+	stoppedDone int32
+}
+
+func (a *stopRaceActor) Receive(ctx *actor.Context) {
+	w := a.w
+	if n := atomic.AddInt32(&w.inflight, 1); n > 1 {
+		w.mu.Lock()
+		w.overlap = true
+		w.mu.Unlock()
+	}
+	defer atomic.AddInt32(&w.inflight, -1)
+	if atomic.LoadInt32(&a.stopped) > 0 {
+		// anything at all after Stopped, to the incarnation that got it
+		atomic.AddInt32(&w.anomaly, 1)
+	}
+	switch m := ctx.Message().(type) {
+	case actor.Stopped:
+		atomic.AddInt32(&a.stopped, 1)
+		time.Sleep(300 * time.Microsecond) // room for a second worker to show itself
+		atomic.AddInt32(&w.stoppedDone, 1)
+	case dmsg:
+		if w.c.HandlerMicros > 0 {
+			time.Sleep(time.Duration(w.c.HandlerMicros) * time.Microsecond)
+		}
+		w.mu.Lock()
+		w.got = append(w.got, []int{m.From, m.Seq, 1})
+		first := false
+		for _, pa := range w.c.PanicAt {
+			if pa[0] == m.From && pa[1] == m.Seq && !w.panicked[[2]int{m.From, m.Seq}] {
+				w.panicked[[2]int{m.From, m.Seq}] = true
+				first = true
+			}
+		}
+		w.mu.Unlock()
+		if first {
+			panic("scripted panic")
+		}
+	}
+}
+
+// runStopRace: a stop request racing restarts and active senders. The incarnation that is stopped
+// must get Stopped exactly once, as the last thing it gets, one Receive call at a time; the stop's
+// context must not be done before that handler has returned; crashed incarnations get Stopped once
+// each; what was delivered is in per-sender order without repetition.
+func runStopRace(c deliverCase) (any, error) {
+	e, err := actor.NewEngine(actor.NewEngineConfig())
+	if err != nil {
+		return nil, err
+	}
+	w := &stopRaceWorld{c: c, panicked: map[[2]int]bool{}, got: [][]int{}}
+	var incs []*stopRaceActor
+	pid := e.Spawn(func() actor.Receiver {
+		a := &stopRaceActor{w: w}
+		w.mu.Lock()
+		incs = append(incs, a)
+		w.mu.Unlock()
+		return a
+	}, "sink", actor.WithID("x"), actor.WithInboxSize(max(1, c.InboxSize)),
+		actor.WithMaxRestarts(len(c.PanicAt)+1), actor.WithRestartDelay(time.Duration(c.RestartDelayMs)*time.Millisecond))
+	obs := deliverObs{}
+	var wg sync.WaitGroup
+	for s := 0; s < c.Senders; s++ {
+		s := s
+		wg.Add(1)
+		go func() {
+			defer wg.Done()
+			for k := 1; k <= c.PerSender; k++ {
+				e.Send(pid, dmsg{s, k})
+				if c.PaceMicros > 0 {
+					time.Sleep(time.Duration(c.PaceMicros) * time.Microsecond)
+				}
+				if s == 0 && k == c.StopAt {
+					var done <-chan struct{}
+					if c.Poison {
+						done = e.Poison(pid).Done()
+					} else {
+						done = e.Stop(pid).Done()
+					}
+					select {
+					case <-done:
+						w.mu.Lock()
+						crashed := len(w.panicked)
+						w.mu.Unlock()
+						// every crash so far and this stop have each produced one finished Stopped handler
+						// (crashes and the stop are handled by the one worker of the inbox, in turn)
+						if int(atomic.LoadInt32(&w.stoppedDone)) < 1+crashed {
+							atomic.AddInt32(&w.anomaly, 1)
+						}
+					case <-time.After(30 * time.Second):
+						w.mu.Lock()
+						obs.Hang = true
+						w.mu.Unlock()
+					}
+				}
+			}
+		}()
+	}
+	wg.Wait()
+	time.Sleep(20 * time.Millisecond) // would anything still arrive?
+	w.mu.Lock()
+	defer w.mu.Unlock()
+	last := len(incs) - 1
+	for i, a := range incs {
+		n := atomic.LoadInt32(&a.stopped)
+		if n > 1 || (i == last && n != 1) {
+			atomic.AddInt32(&w.anomaly, 1)
+		}
+	}
+	if e.Registry.GetPID("sink", "x") != nil {
+		atomic.AddInt32(&w.anomaly, 1)
+	}
+	obs.Overlap = w.overlap
+	obs.Got = append([][]int{}, w.got...)
+	obs.Anomalies = int(atomic.LoadInt32(&w.anomaly))
+	return obs, nil
+}
+
 func runDeliver(raw json.RawMessage) (any, error) {
 	var c deliverCase
 	if err := json.Unmarshal(raw, &c); err != nil {
@@ -182,6 +318,9 @@ func runDeliver(raw json.RawMessage) (any, error) {
 	}
 	if c.Mode == "spawnrace" {
 		return runSpawnRace(c)
+	}
+	if c.Mode == "stoprace" {
+		return runStopRace(c)
 	}
 	e, err := actor.NewEngine(actor.NewEngineConfig())
 	if err != nil {
